@@ -73,11 +73,24 @@ pub struct RecSpec {
 
 impl RecSpec {
     pub fn line(&self) -> String {
-        format!("{} {} IN {} {}", self.owner, self.ttl, self.rtype, self.rdata)
+        format!("{} {} {} {} {}", self.owner, self.ttl, zone_class(), self.rtype, self.rdata)
     }
     pub fn record(&self) -> StoredRecord {
         parse_record(&self.line())
     }
+}
+
+thread_local! {
+    /// The class of the zones of this run (IN unless a scenario says otherwise).
+    static ZONE_CLASS: std::cell::Cell<Class> = const { std::cell::Cell::new(Class::IN) };
+}
+
+pub fn zone_class() -> Class {
+    ZONE_CLASS.with(|c| c.get())
+}
+
+pub fn set_zone_class(class: Class) {
+    ZONE_CLASS.with(|c| c.set(class));
 }
 
 pub fn rrset_of(rtype: Rtype, ttl: u32, rdatas: &BTreeSet<String>, owner: &str) -> SharedRrset {
@@ -171,7 +184,7 @@ pub fn query_zone(r: &dyn ReadableZone, qname: &str, qtype: Rtype) -> Result<Ans
         Err(_) => return Err("OutOfZone".into()),
     };
     let mut mb = MessageBuilder::new_vec().question();
-    mb.push((&qn, qtype)).unwrap();
+    mb.push((&qn, qtype, zone_class())).unwrap();
     let req: Message<Vec<u8>> = mb.into_message();
     let out = answer.to_message(&req, MessageBuilder::new_vec());
     let bytes = out.into_message().into_octets();
@@ -183,7 +196,13 @@ pub fn query_zone(r: &dyn ReadableZone, qname: &str, qtype: Rtype) -> Result<Ans
         authority: Vec::new(),
         additional: Vec::new(),
     };
+    if v.questions.len() != 1 || v.questions[0].2 != zone_class() {
+        return Err(format!("answer message carries question {:?}, asked in class {}", v.questions, zone_class()));
+    }
     for rec in v.recs {
+        if rec.class != zone_class() {
+            return Err(format!("record {} {} of class {} in the answer of a class {} zone", rec.owner, rec.rtype, rec.class, zone_class()));
+        }
         let t = (owner_str(&rec.owner), rec.rtype, rec.ttl, rec.rdata);
         match rec.section {
             1 => a.answer.push(t),
@@ -219,7 +238,7 @@ pub fn universe_names() -> Vec<String> {
 
 /// Build a zone directly from `content` through parsed::Zonefile/ZoneBuilder.
 pub fn build_direct(content: &Content) -> Result<Zone, String> {
-    let mut zf = parsed::Zonefile::new(stored_name(APEX), Class::IN);
+    let mut zf = parsed::Zonefile::new(stored_name(APEX), zone_class());
     // SOA first, then NS/DS (cuts), then the rest, so that the library's
     // own ordering rules for cuts and glue are satisfied.
     let mut specs: Vec<RecSpec> = Vec::new();
@@ -329,6 +348,12 @@ async fn node_for(root: &dyn WritableZoneNode, owner: &str, mdl: &Mdl) -> Option
 }
 
 // ------------------------------------------------------------ C09 scenario
+
+thread_local! {
+    /// Owner names that hold a CNAME at the start of the run (zone_isolation
+    /// only); writers change their role, readers probe them.
+    static ALIASES: RefCell<Vec<String>> = const { RefCell::new(Vec::new()) };
+}
 
 const P9: &str = "C09";
 
@@ -647,7 +672,45 @@ async fn lowlevel_round(w: &mut dyn WritableZone, mdl: &Mdl, who: &str, names: &
         if abort_at == Some(i) {
             break;
         }
-        match sim::draw("writer.op", 8) {
+        let aliases = ALIASES.with(|a| a.borrow().clone());
+        let op = sim::draw("writer.op", if aliases.is_empty() { 8 } else { 10 });
+        if op >= 8 {
+            // An alias owner changes its role: a CNAME node becomes a
+            // regular node with a TXT RRset (make_regular + update_rrset), a
+            // regular one is emptied and becomes a CNAME (make_cname).
+            let owner = sim::pick("writer.alias", &aliases).clone();
+            let node = node_for(root.as_ref(), &owner, mdl).await.expect("alias below the apex");
+            let here: Vec<Rtype> = working.keys().filter(|(o, _)| *o == owner).map(|(_, t)| *t).collect();
+            if here.contains(&Rtype::CNAME) {
+                sim::stat("probe.cname_node_made_regular");
+                ev!("{} make_regular + update_rrset {} TXT", who, owner);
+                node.make_regular().await.expect("make_regular");
+                let mut rds = BTreeSet::new();
+                rds.insert(canon_rdata(&owner, Rtype::TXT, &gen_rdata(Rtype::TXT)));
+                node.update_rrset(rrset_of(Rtype::TXT, 300, &rds, &owner)).await.expect("update_rrset");
+                working.remove(&(owner.clone(), Rtype::CNAME));
+                working.insert((owner.clone(), Rtype::TXT), (300, rds));
+            } else {
+                sim::stat("probe.regular_node_made_cname");
+                ev!("{} remove {:?} + make_cname {}", who, here, owner);
+                for t in &here {
+                    node.remove_rrset(*t).await.expect("remove_rrset");
+                    working.remove(&(owner.clone(), *t));
+                }
+                let target = format!("target{}.example.", sim::draw("writer.alias_target", 3));
+                let rec = RecSpec { owner: owner.clone(), rtype: Rtype::CNAME, ttl: 300, rdata: target.clone() }.record();
+                node.make_cname(domain::zonetree::SharedRr::from(rec)).await.expect("make_cname");
+                let mut rds = BTreeSet::new();
+                rds.insert(canon_rdata(&owner, Rtype::CNAME, &target));
+                working.insert((owner.clone(), Rtype::CNAME), (300, rds));
+            }
+            step().await;
+            if sim::stopped() {
+                return false;
+            }
+            continue;
+        }
+        match op {
             0..=3 => {
                 // Replace (or create) an RRset.
                 let r = gen_plain_rec(names);
@@ -667,7 +730,7 @@ async fn lowlevel_round(w: &mut dyn WritableZone, mdl: &Mdl, who: &str, names: &
             }
             4 | 5 => {
                 // Remove an RRset (prefer one that exists).
-                let existing: Vec<(String, Rtype)> = working.keys().filter(|(_, t)| *t != Rtype::SOA).cloned().collect();
+                let existing: Vec<(String, Rtype)> = working.keys().filter(|(_, t)| *t != Rtype::SOA && *t != Rtype::CNAME).cloned().collect();
                 let (owner, rtype) = if !existing.is_empty() && sim::chance("writer.rm_existing", 3, 4) {
                     sim::pick("writer.rm_which", &existing).clone()
                 } else {
@@ -801,7 +864,7 @@ async fn updater_batch(zone: &Zone, mdl: &Mdl, who: &str, names: &[String]) {
                 // Delete an existing record if possible.
                 let existing: Vec<RecSpec> = working
                     .iter()
-                    .filter(|((_, t), _)| *t != Rtype::SOA)
+                    .filter(|((_, t), _)| *t != Rtype::SOA && *t != Rtype::CNAME)
                     .flat_map(|((o, t), (ttl, rds))| {
                         rds.iter().map(move |rd| RecSpec {
                             owner: o.clone(),
@@ -914,12 +977,12 @@ impl Scenario for IsolationScn {
         )
     }
     fn rule(&self) -> &'static str {
-        "1-2 writer tasks (low-level write interface or ZoneUpdater; update/remove/remove+update/remove_all/IXFR-style batch boundaries; commit with or without serial bump; abort by drop at any op boundary in 25% of batches) interleaved by the seeded scheduler at every API call with 1-4 reader tasks that pin a version, record walk() plus 4-11 query answers, and re-observe up to 6 times while writers proceed; initial content from parsed::Zonefile/ZoneBuilder."
+        "1-2 writer tasks (low-level write interface or ZoneUpdater; update/remove/remove+update/remove_all/IXFR-style batch boundaries; role changes of alias owners through make_regular / make_cname; commit with or without serial bump, several commits through one handle, commit without open; abort by drop at any op boundary in 25% of batches) interleaved by the seeded scheduler at every API call with 1-4 reader tasks that pin a version, record walk() plus 4-11 query answers, and re-observe up to 6 times while writers proceed; initial content from parsed::Zonefile/ZoneBuilder."
     }
     fn assumptions(&self) -> Vec<&'static str> {
         vec![
             "this scenario interleaves at operation granularity on one thread; lock-level schedules inside one zone operation (parking_lot RwLocks, real threads) are the zone_threads scenario's",
-            "the content model covers plain RRset operations only (no make_cname/make_zone_cut through the write interface)",
+            "the content model covers plain RRset operations plus role changes of up to two alias owners (make_regular + update_rrset on a CNAME node, make_cname on an emptied node); make_zone_cut through the write interface is not modelled",
         ]
     }
     fn nontrivial(&self, stats: &BTreeMap<&'static str, u64>) -> bool {
@@ -941,7 +1004,13 @@ async fn run_isolation(_tier: Tier) {
         let i = sim::draw("focus.name", pool.len() as u64) as usize;
         names.push(pool.remove(i));
     }
-    let init = if sim::chance("init.empty", 1, 6) { Content::new() } else { initial_content(&names, sim::draw("init.n", 8)) };
+    let mut init = if sim::chance("init.empty", 1, 6) { Content::new() } else { initial_content(&names, sim::draw("init.n", 8)) };
+    // Up to two alias owners (CNAME nodes built by the zone-file path).
+    let aliases: Vec<String> = if init.is_empty() { Vec::new() } else { (0..sim::draw("init.n_aliases", 3)).map(|i| format!("cn{}.{}", i, APEX)).collect() };
+    for a in &aliases {
+        apply_add(&mut init, &RecSpec { owner: a.clone(), rtype: Rtype::CNAME, ttl: 300, rdata: "target0.example.".into() });
+    }
+    ALIASES.with(|x| *x.borrow_mut() = aliases.clone());
     let zone = match build_direct(&init) {
         Ok(z) => z,
         Err(e) => {
@@ -964,7 +1033,9 @@ async fn run_isolation(_tier: Tier) {
         exec.spawn(format!("writer{}", i), writer_task(zone.clone(), mdl.clone(), i, names.clone()));
     }
     for i in 0..n_readers {
-        exec.spawn(format!("reader{}", i), reader_task(zone.clone(), mdl.clone(), i, names.clone()));
+        let mut probe_names = names.clone();
+        probe_names.extend(aliases.iter().cloned());
+        exec.spawn(format!("reader{}", i), reader_task(zone.clone(), mdl.clone(), i, probe_names));
     }
     exec.run().await;
     if sim::stopped() {
